@@ -199,7 +199,7 @@ func sceneBindingMsg(op int, o BindOpts) {
 	chk("C15 C17", len(lst) == 1, "binding-listed-for-its-owner")
 	stored := k.GetPricing(ctx, Svc, prov)
 	reparsed, rerr := k.ParsePricing(ctx, post.Pricing)
-	chk("C15 C07", vf.And(rerr == nil, stored.Price.AmountOf(Denom).Equal(reparsed.Price.AmountOf(Denom))), "stored-price-matches-published-text")
+	chk("C15 C07 C06", vf.And(rerr == nil, stored.Price.AmountOf(Denom).Equal(reparsed.Price.AmountOf(Denom))), "stored-price-matches-published-text")
 	samePromos := vf.And(len(stored.PromotionsByTime) == len(reparsed.PromotionsByTime), len(stored.PromotionsByVolume) == len(reparsed.PromotionsByVolume))
 	if len(stored.PromotionsByTime) == len(reparsed.PromotionsByTime) && len(stored.PromotionsByVolume) == len(reparsed.PromotionsByVolume) {
 		for i := range stored.PromotionsByTime {
